@@ -183,11 +183,16 @@ def add_cand_edges(
         node_frame_dict = _compute_node_frame_dict(cand_graph)
 
     frames = sorted(node_frame_dict.keys())
-    prev_node_ids = node_frame_dict[frames[0]]
+    prev_frame = frames[0]
+    prev_node_ids = node_frame_dict[prev_frame]
     prev_kdtree = create_kdtree(cand_graph, prev_node_ids)
     for frame in tqdm(frames):
         if frame + 1 not in node_frame_dict:
             continue
+        if prev_frame != frame:
+            # there was a gap: the carried nodes are not those of this frame
+            prev_node_ids = node_frame_dict[frame]
+            prev_kdtree = create_kdtree(cand_graph, prev_node_ids)
         next_node_ids = node_frame_dict[frame + 1]
         next_kdtree = create_kdtree(cand_graph, next_node_ids)
 
@@ -200,5 +205,6 @@ def add_cand_edges(
                 next_node_id = next_node_ids[next_node_index]
                 cand_graph.add_edge(prev_node_id, next_node_id)
 
+        prev_frame = frame + 1
         prev_node_ids = next_node_ids
         prev_kdtree = next_kdtree
